@@ -33,8 +33,8 @@ def plan(tier):
     g.append({"variant": "asan", "name": "selftest-asan", "workers": 1, "cases": 1, "params": {"mon": "selftest"}})
     g.append({"variant": "guard", "name": "selftest-guard", "workers": 1, "cases": 2, "params": {"mon": "selftest"}})
     for p in _available():
-        n = {"C08": 300, "C15": 60, "C16": 60, "C17": 5000, "C18": 600, "C20": 60}.get(p, 30) * (1 if q else 6)
-        w = {"C15": 4, "C16": 4, "C18": 3, "C20": 2}.get(p, 1) if q else 4
+        n = {"C08": 300, "C15": 60, "C16": 60, "C17": 20000, "C18": 600, "C20": 60}.get(p, 30) * (1 if q else 6)
+        w = {"C15": 4, "C16": 4, "C17": 4, "C18": 3, "C20": 2}.get(p, 1) if q else 4
         g.append({"variant": "asan", "name": "asan-replay-" + p, "workers": w, "cases": n, "params": {"mon": "replay", "prop": p}})
         g.append({"variant": "guard", "name": "guard-replay-" + p, "workers": max(1, w // 2), "cases": n, "params": {"mon": "replay", "prop": p}})
         if not q:
@@ -241,6 +241,43 @@ def run(ctx):
             items = [rng.choice([rmat(rng, "d"), rsp(rng, "d"), 2.0, [1.0, 2.0]]) for _ in range(rng.randint(0, 3))]
             return "spdiag()", lambda: spdiag(items)
 
+        def op_buffer(rng):
+            """matrix construction / assignment from foreign buffers of every item size, exactly sized (any read past the
+            exporter's last item is a heap overflow in the instrumented build), contiguous, strided, reversed, 2-D"""
+            import array as _array
+            code = rng.choice(["i", "i", "l", "q", "d", "f", "b", "h", "B"])
+            L = rng.randint(0, 7)
+            a = _array.array(code, [rng.randint(-5, 5) if code not in "dfB" else (abs(rng.randint(-5, 5)) if code == "B" else rng.uniform(-2, 2)) for _ in range(L)])
+            view = rng.choice(["array", "memoryview", "strided", "reversed", "cast2d", "bytes"])
+            if view == "array": src = a
+            elif view == "memoryview": src = memoryview(a)
+            elif view == "strided": src = memoryview(a)[::2]
+            elif view == "reversed": src = memoryview(a)[::-1]
+            elif view == "cast2d":
+                r_ = rng.choice([1, 2, 3])
+                try:
+                    src = memoryview(a).cast("B").cast(code, (r_, L // r_)) if L and L % r_ == 0 else memoryview(a)
+                except (TypeError, ValueError):
+                    src = memoryview(a)
+            else: src = bytes(a)
+            tc = rng.choice([None, "i", "d", "z"])
+            size = rng.choice([None, None, (ival(rng), ival(rng)), (len(a), 1)])
+            DET.update({"buffer": "%s('%s', len %d)" % (view, code, L), "tc": tc, "size": size})
+            if rng.random() < 0.7:
+                def f():
+                    args = [src] + ([size] if size is not None else []) + ([tc] if (tc is not None and size is not None) else [])
+                    if tc is not None and size is None:
+                        matrix(src, tc=tc)
+                    else:
+                        matrix(*args)
+                return "matrix(buffer)", f
+            A = rmat(rng)
+            idx = ridx(rng, len(A))
+            def g():
+                A[idx] = src
+            DET["A"] = A
+            return "setitem(buffer)", g
+
         def op_base(rng):
             fn = rng.choice(["gemv", "gemm", "syrk", "symv", "axpy", "emul", "ediv", "size", "arith"])
             tc = rng.choice("ddz")
@@ -330,7 +367,7 @@ def run(ctx):
             """hostile BLAS calls from the spec generator (boundary boxes / illegal values), ints perturbed into small
             negative and off-by-one values; oracle: no crash + (footprint oracle) an accepted call fits"""
             name = rng.choice(blasspec.NAMES)
-            call = blasspec.gen_call(rng, name, rng.choice([2, 2, 3, 1]))
+            call = blasspec.gen_call(rng, name, rng.choice([2, 2, 3, 1, 4, 4]))
             if rng.random() < 0.5:
                 ints = [k_ for k_, v_ in call["args"].items() if isinstance(v_, int) and not isinstance(v_, bool)]
                 for k_ in rng.sample(ints, min(len(ints), rng.randint(1, 2))):
@@ -389,7 +426,7 @@ def run(ctx):
                     F(A, **kk)
             return "lapack." + fn, f
 
-        gens = [op_index, op_index, op_construct, op_base, op_base, op_misc] + ([op_blas, op_blas, op_lapack] if (blasspec and not noblas) else [])
+        gens = [op_index, op_index, op_construct, op_buffer, op_base, op_base, op_misc] + ([op_blas, op_blas, op_lapack] if (blasspec and not noblas) else [])
         def one(c):
             rng = c.rng
             g = gens[rng.randrange(len(gens))]
